@@ -573,6 +573,9 @@ def run(ctx):
       functions=[SAMIWriter._recreate_p_tag, SAMIWriter._recreate_blank_tag, SAMIWriter._recreate_sync])
     import props.C03_lines as LN
     LN.prove_cue_lines(ctx)          # (WebVTT: a caption with a text node yields at least one cue)
+    # DFXPWriter.write: one <p> per caption of every written language, none skipped (skeleton contract shared with C07)
+    import props.C07_write as WS
+    WS.prove_write_skeleton(ctx)
     # the legacy / single-position DFXP writers merge exactly the runs of IDENTICAL spans (contract shared with C19)
     import props.C19 as C19
     P("base.merge_concurrent_captions", C19.mcc, functions=[C19.merge_concurrent_captions], setup_interp=C19.setup, crosscheck=False)
